@@ -3,7 +3,7 @@ import fcntl, os, re, subprocess, time
 from pathlib import Path
 from .common import VERIF, COQ, REPO, PY, impl_env
 
-TRANSLATORS = ['translate_tables', 'translate_templates']
+TRANSLATORS = ['translate_tables', 'translate_templates', 'translate_grammar']
 COQ_WARN = ['-w', '-notation-overridden,-deprecated-hint-without-locality,-deprecated,-ambiguous-paths']
 
 
